@@ -37,6 +37,9 @@ def insertBy (le : α → α → Bool) (a : α) : List α → List α
 
 def isort (le : α → α → Bool) (l : List α) : List α := l.foldr (insertBy le) []
 
+/-- the same number as `choose n k`, computed by the product formula (the driver needs it for n = 100) -/
+def chooseFast (n k : Nat) : Nat := (List.range k).foldl (fun acc i => acc * (n - i) / (i + 1)) 1
+
 def sortNat (l : List Nat) : List Nat := isort (fun a b => decide (a ≤ b)) l
 
 /-- indicator vector of the set of the elements of `R` inside `{0, …, n-1}` -/
@@ -139,6 +142,45 @@ def BT.clusters (m : Nat) : BT → List (List Nat)
     whose leaves are exactly `1 … n-1`, each once.  Its branches are the clusters of its
     subtrees (the whole tree = the branch of tip 0). -/
 def BT.isUnrootedOn (bt : BT) (n : Nat) : Prop := bt.leaves.Perm (List.range' 1 (n - 1))
+
+/-! ### marginal frequencies over seeds (model-free statistical oracle; supporting evidence)
+
+  What the property predicts for simple events, whatever the algorithm: an item is among the `k`
+  selected of `n` with probability `k/n`; a slot (with replacement) holds a given item with
+  probability `1/n`; a given name lands on a given tip (a given neighbour on a given position) with
+  probability `1/n`; two given tips form a cherry of a uniform unrooted binary tree on `n ≥ 4`
+  labelled tips with probability `1/(2n-5)` (`(2n-7)!!` of the `(2n-5)!!` trees).  The number of
+  seeds, among `N`, on which the event happens is then `Bin(N, a/b)`. -/
+
+/-- `P(X ≤ c)·b^N` for `X ~ Bin(N, a/b)` (`0 < a < b`), as a natural number -/
+def binomLowerNumP (N a b c : Nat) : Nat :=
+  -- Σ_{i ≤ c} C(N,i)·a^i·(b-a)^(N-i)
+  let rec go (i : Nat) (fuel : Nat) (term : Nat) (acc : Nat) : Nat :=
+    match fuel with
+    | 0 => acc
+    | fuel + 1 =>
+      -- next term: C(N,i+1)·a^(i+1)·(b-a)^(N-i-1) = term·(N-i)·a / ((i+1)·(b-a))   (exact)
+      go (i + 1) fuel (term * (N - i) * a / ((i + 1) * (b - a))) (acc + term)
+  go 0 (min c N + 1) ((b - a) ^ N) 0
+
+/-- neither tail of the count `c` is below `10⁻¹²` -/
+def tailsOK (N a b c : Nat) : Bool :=
+  let tot := b ^ N
+  binomLowerNumP N a b c * 1000000000000 ≥ tot &&
+  (c == 0 || (tot - binomLowerNumP N a b (c - 1)) * 1000000000000 ≥ tot)
+
+/-- event probability `a/b` and number of events (cells) per kind of selection -/
+def margSpec (what : String) (k n : Nat) : Option (Nat × Nat × Nat) :=
+  match what with
+  | "sample" | "tips" | "tipsR" | "tipsT" => if 0 < k && k < n then some (k, n, n) else none
+  | "replace" => if 2 ≤ n then some (1, n, k * n) else none
+  | "shuffle" | "shuffleR" | "shuffleT" | "rotate" => if 2 ≤ n then some (1, n, n * n) else none
+  | "utreeU" => if 4 ≤ n then some (1, 2 * n - 5, n * (n - 1) / 2) else none
+  | _ => none
+
+/-- all counts are within the exact binomial bounds (it is enough to test the extremes) -/
+def margOK (N a b : Nat) (counts : List Nat) : Bool :=
+  counts.all (· ≤ N) && tailsOK N a b (counts.foldl min N) && tailsOK N a b (counts.foldl max 0)
 
 /-! ### reading the shape of a generated tree: `((0,1),2)` ↦ clusters -/
 
